@@ -272,6 +272,11 @@ func topBody(kind, who string) func(x *harness.X) {
 		if kind == "tcp" && len(pl.Servers) > 0 {
 			s.sconn = pl.Servers[0]
 		}
+		if rt.Choose(2) == 1 {
+			// the session is not brand new when it ends
+			time.Sleep(2 * time.Second)
+			x.Obs("session aged 2s")
+		}
 		rt.BeginExplore()
 		if withTraffic {
 			go func() {
@@ -342,6 +347,133 @@ func topFinal(x *harness.X, res *rt.Result) {
 	}
 	if s.scState != lime.SessionStateFinished {
 		x.Failf("server-state:"+tag, "the server side of the session ended in state %v, expected finished %s", s.scState, hist)
+	}
+	if s.estCb != 1 || s.finishedCb != 1 {
+		x.Failf(fmt.Sprintf("callbacks:est%d-fin%d:%s", s.estCb, s.finishedCb, tag), "Established fired %d times, Finished %d times for the one session %s", s.estCb, s.finishedCb, hist)
+	}
+	for _, g := range res.Alive {
+		if g.Name == "main" {
+			continue
+		}
+		x.Failf("goroutine-left:"+g.Name+"["+g.PendTag()+"]:"+tag, "goroutine %s (%s) is left behind after both endpoints were closed %s", g.Name, g.PendTag(), hist)
+	}
+	if s.cconn != nil && s.sconn != nil && (!s.cconn.IsClosed() || !s.sconn.IsClosed()) {
+		x.Failf("conn-open:"+tag, "virtual connection not closed on both ends (client %v server %v) %s", s.cconn.IsClosed(), s.sconn.IsClosed(), hist)
+	}
+}
+
+// servedBody: a real Server serves one client channel (not the high-level Client, so that
+// the client's view is observable); the session is brand new or two seconds old; it is
+// ended by the client finishing it or by Server.Close; the client keeps draining.
+func servedBody(kind, who string) func(x *harness.X) {
+	return func(x *harness.X) {
+		lib.Reset()
+		s := &st{kind: kind, who: who}
+		x.Vars["st"] = s
+		aged := rt.Choose(2) == 1
+		cfg := lime.NewServerConfig()
+		cfg.Node = lib.ServerNode
+		cfg.SchemeOpts = []lime.AuthenticationScheme{lime.AuthenticationSchemeGuest}
+		cfg.EncryptOpts = []lime.SessionEncryption{lime.SessionEncryptionNone}
+		cfg.Backlog, cfg.ChannelBufferSize = 1, rt.Choose(2)
+		cfg.Authenticate, cfg.Register = lib.GuestOK, lib.RegisterSame
+		cfg.Established = func(id string, c *lime.ServerChannel) { s.estCb++; x.Obs("established-callback") }
+		cfg.Finished = func(id string) { s.finishedCb++; x.Obs("finished-callback") }
+		pl := lib.NewPipeListener(nil, 64<<10, 1)
+		inaddr := lime.InProcessAddr("c13served")
+		var bl lime.BoundListener
+		if kind == "tcp" {
+			bl = lime.NewBoundListener(pl, lib.PipeAddr("p"))
+		} else {
+			bl = lime.NewBoundListener(lime.NewInProcessTransportListener(inaddr), inaddr)
+		}
+		srv := lime.NewServer(cfg, &lime.EnvelopeMux{}, bl)
+		go func() { _ = srv.ListenAndServe() }()
+		var tr lime.Transport
+		if kind == "tcp" {
+			s.cconn = pl.Dial()
+			tr = lime.NewTCPTransportFromConn(s.cconn, nil, false)
+		} else {
+			var ok bool
+			if tr, ok = lib.TryDialInProc(inaddr, 1); !ok {
+				x.Failf("setup", "in-process dial refused")
+				rt.Stop()
+			}
+		}
+		cc := lime.NewClientChannel(tr, rt.Choose(2))
+		ctx, cancel := context.WithTimeout(context.Background(), 120*time.Second)
+		defer cancel()
+		if ses, err := lib.ClientEstablishGuest(ctx, cc, "alice"); err != nil || ses.State != lime.SessionStateEstablished {
+			x.Failf("setup", "client could not establish: %v", err)
+			rt.Stop()
+		}
+		rt.Quiesce()
+		if kind == "tcp" && len(pl.Servers) > 0 {
+			s.sconn = pl.Servers[0]
+		}
+		if aged {
+			time.Sleep(2 * time.Second)
+			x.Obs("session aged 2s")
+		}
+		rt.BeginExplore()
+		go drain(x, "client", cc, &s.ccStreams, &s.cliConsumerEnded)
+		switch who {
+		case "client-finish":
+			go func() {
+				s.initSes, s.initErr = cc.FinishSession(ctx)
+				s.initRet = true
+				x.Obs("client FinishSession returned err=%v", s.initErr != nil)
+			}()
+		case "Server.Close":
+			go func() {
+				s.initErr = srv.Close()
+				s.initRet = true
+				x.Obs("Server.Close returned err=%v", s.initErr != nil)
+			}()
+		}
+		for i := 0; i < 3; i++ {
+			rt.Quiesce()
+			time.Sleep(6 * time.Second)
+		}
+		rt.Quiesce()
+		rt.EndExplore()
+		s.ccState = cc.State()
+		select {
+		case <-cc.RcvDone():
+			s.ccRcvDone = true
+		default:
+		}
+		_ = cc.Close()
+		_ = srv.Close()
+		for i := 0; i < 2; i++ {
+			rt.Quiesce()
+			time.Sleep(6 * time.Second)
+		}
+		rt.Quiesce()
+		s.snap = true
+		rt.Stop()
+	}
+}
+
+func servedFinal(x *harness.X, res *rt.Result) {
+	if res.Crash != "" {
+		x.Failf("crash:"+res.CrashSite, "%s", strings.SplitN(res.Crash, "\n", 2)[0])
+		return
+	}
+	s, _ := x.Vars["st"].(*st)
+	if s == nil || !s.snap {
+		return
+	}
+	tag := "served/" + s.who + ":" + s.kind
+	hist := fmt.Sprintf("[%s; %s]", tag, strings.Join(x.Log(), " | "))
+	if !s.initRet {
+		x.Failf("initiator-blocked:"+tag, "%s never returned %s", s.who, hist)
+	}
+	if s.ccState != lime.SessionStateFinished {
+		x.Failf("observer-state:"+tag, "the client kept consuming but ended in state %v: it did not observe the finished session envelope %s", s.ccState, hist)
+	}
+	if !s.ccRcvDone || !s.cliConsumerEnded {
+		x.Failf("observer-streams:"+tag, "client receiver done=%v, stream consumer returned=%v %s", s.ccRcvDone, s.cliConsumerEnded, hist)
 	}
 	if s.estCb != 1 || s.finishedCb != 1 {
 		x.Failf(fmt.Sprintf("callbacks:est%d-fin%d:%s", s.estCb, s.finishedCb, tag), "Established fired %d times, Finished %d times for the one session %s", s.estCb, s.finishedCb, hist)
@@ -460,10 +592,15 @@ func main() {
 			scs = append(scs, harness.Scenario{Name: fmt.Sprintf("top/%s/%s", kind, who), Opt: topOpt, Quick: 1, Thorough: 2, Prune: false, Body: topBody(kind, who), Final: topFinal})
 		}
 	}
+	for _, kind := range []string{"inproc", "tcp"} {
+		for _, who := range []string{"client-finish", "Server.Close"} {
+			scs = append(scs, harness.Scenario{Name: fmt.Sprintf("served/%s/%s", kind, who), Opt: topOpt, Quick: 1, Thorough: 2, Prune: false, Body: servedBody(kind, who), Final: servedFinal})
+		}
+	}
 	harness.Main(harness.Check{
 		Property:  "C13",
 		Level:     "model_checking",
-		Rule:      "initiator {client finish, server finish, server fail, server finish/fail issued by the server's only consumer while the client keeps streaming} x transport {in-process (queue 0/1), TCP over virtual pipe} x channel buffer {0,1} x {idle, one message in flight each way}; both sides keep draining their streams; the observer closes its channel when its receiver is done; plus top-level scenarios: a real Client and a real Server (handlers registered, idle or one message in flight each way), ended by Client.Close or by Server.Close, after which the other endpoint is closed too and nothing at all may be left; all schedules within the deviation bound (delay bounding); distinct outcome = distinct observation log",
+		Rule:      "initiator {client finish, server finish, server fail, server finish/fail issued by the server's only consumer while the client keeps streaming} x transport {in-process (queue 0/1), TCP over virtual pipe} x channel buffer {0,1} x {idle, one message in flight each way}; both sides keep draining their streams; the observer closes its channel when its receiver is done; plus top-level scenarios: a real Client and a real Server (handlers registered, idle or one message in flight each way), ended by Client.Close or by Server.Close, after which the other endpoint is closed too and nothing at all may be left (the session brand new or two seconds old); and served scenarios: a real Server serving one client channel, session new or two seconds old, ended by the client finishing or by Server.Close, the client's terminal state and streams observed; all schedules within the deviation bound (delay bounding); distinct outcome = distinct observation log",
 		Assume:    []string{"WebSocket transports not explored under the scheduler", "the serving side answers a finishing request the way Server.handleChannel does (FinishSession when the receiver is done)"},
 		Scenarios: scs,
 	})
